@@ -742,7 +742,8 @@ J_C17(S, a, site, inp, S2, o, G, G2) ==
         ELSE <<V("C17", "violation", "", "a background thread terminated by a panic")>> ELSE <<>>)
   \o (IF IsCaller(a) /\ o.next \in {"C_Idle", "DEAD"} /\ o.ret.panic
          /\ ~(o.op.op = "pou" /\ ~HasV(o.op) /\ site = "C_PouUpdate")
-      THEN IF HugeAround(S, a) /\ site = "C_PouWeightOf"
+      \* (the derived weight `existing + 24` is computed after the index insert: the panic surfaces in the span of C_PouWeightOf or T_Put)
+      THEN IF HugeAround(S, a) /\ o.op.op = "pou" /\ site \in {"C_PouWeightOf", "T_Put"}
            THEN <<V("C17", "known", "D10", "unchecked i64 weight arithmetic overflowed in the caller")>>
            ELSE <<V("C17", "violation", "", "an API call with valid arguments panicked")>> ELSE <<>>)
 
